@@ -63,6 +63,11 @@ func checks() []check {
 		{ID: "C18", Level: "model_checking", Parts: []part{
 			{Name: "admission", Pkg: "pkg/controller/webhook", Run: "^TestVerifC18$"},
 		}},
+		{ID: "C19", Level: "model_checking", Parts: []part{
+			{Name: "instance-limits", Pkg: "pkg/aliyun/client", Run: "^TestVerifC19Limits$"},
+			{Name: "daemon-pool-config", Pkg: "daemon", Run: "^TestVerifC19PoolConfig$"},
+			{Name: "node-cr-flavor", Pkg: "pkg/eni", Run: "^TestVerifC19Flavor$"},
+		}},
 		{ID: "C20", Level: "model_checking", Parts: []part{
 			{Name: "config-merge", Pkg: "types/daemon", Run: "^TestVerifC20Merge$"},
 			{Name: "cni-chain", Pkg: "cmd/terway-cli", Run: "^TestVerifC20Chain$", Netns: true, Patch: [][3]string{{"cmd/terway-cli/node.go", "const nodeCapabilitiesFile =", "var nodeCapabilitiesFile ="}}},
